@@ -464,6 +464,13 @@ def gen_cases(rng, tier):
             out.append(case("block-ser", "block_ser", hdr, txs))
             blk = hdr + ref_varint(len(txs)) + b"".join(txs)
             out.append(case("block-%s" % mode, "block_deser", blk, txs=[t.hex() for t in txs]))
+    # the same transaction twice in a row / the block's tail re-occurring inside an earlier transaction: a parser that
+    # locates "the consumed bytes" by searching for the leftover gets raw and ids wrong exactly here
+    for mode in ("legacy", "segwit"):
+        t1, t2 = gen_tx(rng, mode == "segwit"), gen_tx(rng, mode == "segwit")
+        for txs in ([t1, t1], [t1, t1, t1], [t2, t1, t1], [t1, t2, t1, t2]):
+            hdr = rng.randbytes(80)
+            out.append(case("block-repeated-tx", "block_deser", hdr + ref_varint(len(txs)) + b"".join(txs), txs=[t.hex() for t in txs]))
     big = [gen_tx(rng, i % 2 == 0) for i in range(300 if T else 253)]
     out.append(case("block-count-fd", "block_ser", rng.randbytes(80), big))
     out.append(case("block-count-fd", "block_deser", rng.randbytes(80) + ref_varint(len(big)) + b"".join(big), txs=[t.hex() for t in big]))
